@@ -207,6 +207,26 @@ CHECKS = {
                      "number and line written under one mutex after the bytes are in the caller's buffer)",
                      "schedules of the real binary are sampled; exhaustive interleaving results are for the model"],
     ),
+    "C17": dict(
+        level="exploration",
+        judge="JudgeCrash",
+        mc=[],
+        gen=[dict(module="Gen_C17", slices=dict(quick=16, thorough=16), profiles=dict(quick=["dev"], thorough=["dev", "release"]))]
+            + [dict(module=m, slices=dict(quick=16, thorough=16)) for m in
+               ("Gen_C14", "Gen_C15", "Gen_C13", "Gen_C11", "Gen_C09", "Gen_C12", "Gen_C12cli", "Gen_C19", "Gen_C04", "Gen_C20")]
+            + [dict(module=m, slices=dict(thorough=16), tiers=("thorough",)) for m in
+               ("Gen_C01", "Gen_C02", "Gen_C03", "Gen_C05", "Gen_C06", "Gen_C07", "Gen_C08", "Gen_C10", "Gen_C16", "Gen_C18", "Gen_C15cli")],
+        rule="every event of the union of the workloads is validated against the crash-free specification (JudgeCrash: no "
+             "panic / exit 101 / signal / timeout / silent error): Gen_C17 (single token-class edits at every position of "
+             "accepted path, signature, phrase and JSON texts; 44 hostile JSON values in every transaction field and 11 "
+             "typed-data member types; hostile document shapes, nesting to 127; 45 member type strings with up to 64 array "
+             "suffixes; PRNG strings to every parser; 32 hostile values in 9 CLI option slots; -j 0..64; 19 file/stdin "
+             "contents x 11 reading commands; missing files) plus the boundary workloads of C04, C09, C11, C12, C13, C14, "
+             "C15, C19, C20 (quick) and of all properties (thorough). distinct_nontrivial = distinct inputs the "
+             "implementation ACCEPTED (got past every validation stage), counted from the recorded outcomes",
+        assumptions=["sampling guided by the specification's boundary structure, not a proof of panic freedom",
+                     "bounded as the property states: JSON nesting <= 128, array suffixes <= 64, threads <= 64, prefixes <= 3 digits"],
+    ),
 }
 
 # Text for MANIFEST.json (tools/mkmanifest.py)
@@ -326,6 +346,14 @@ MANIFEST_TEXT = {
              "would make, and that bad prefixes are refused.",
         design_ref="6 (C18)", note=_TRUST,
         technique="TLC exhaustive interleaving model check + trace validation of real concurrent runs via an entropy shim"),
+    "C17": dict(
+        text="The specification has no crash transition (library calls return Ok/Err, every pipeline of Wallet.tla ends in "
+             "printed/failed/open).  TLC validates every recorded event of the union of the generated workloads - boundary "
+             "values of every grammar plus spec-directed damage of accepted inputs and hostile values in every argument "
+             "slot - against that: a panic, exit status 101, signal, timeout or silent error is a deviation.",
+        design_ref="6 (C17)", note="Exploration: sampled, guided by the specification's token classes and boundaries; not a "
+                                    "proof of panic freedom. " + _TRUST,
+        technique="spec-directed generation + TLC trace validation against the crash-free specification"),
     "C07": dict(
         text="TLC proves on the specification (MC_Rlp, exhaustive over a bounded structurally complete universe) that "
              "the strict decoder inverts the encoder and rejects every non-canonical variant; the implementation is "
